@@ -145,6 +145,9 @@ class BatchesV(V):
     def truth(self, E, st):
         return self.rec(st)["n"] > 0
 
+    def length(self, E, st):
+        return self.rec(st)["n"]
+
     def get_item(self, E, idx, st, fx):
         t = hm._srv(E, st, idx)
         r = self.rec(st)
@@ -216,6 +219,20 @@ class BatchItemsV(V):
         r = self.owner.rec(st)
         order = r["order"]
         return r["n"], (lambda k: TupleV([OpaqueV(order[k], tag="server"), BatchV(self.owner, order[k])]))
+
+    def unpack(self, E, elts, st, fx):
+        """(a, b, ...) = d.items(): needs exactly len(elts) entries"""
+        n, item = self.iter_view(E, st)
+        out = []
+        for b, ok in E.branch(st, n == len(elts)):
+            if not ok:
+                out.append(E.raise_(b, "ValueError", "wrong number of values to unpack"))
+                continue
+            cur = [Ev(b, NONE)]
+            for k, tg in enumerate(elts):
+                cur = E.bind(cur, lambda s, _v, k=k, tg=tg: E.assign(tg, item(z3.IntVal(k)), s, fx))
+            out.extend(cur)
+        return out
 
 
 def new_batches(st, inner):
